@@ -162,6 +162,7 @@ def check(run: Run, prog: Program, model: Model, tier: str) -> None:
         "checked to be copy-on-write and the module-level visitor singletons to be stateless. Under the stated "
         "heap model this decides the property for every history of operations."
         " Also: member reads on the validated mapping are dominated by a membership test (no __missing__), and no equality-keyed memoisation sits on the conversion path.")
+    run.explanation += ' MEMO-PURE refuses any equality-keyed memo on the conversion path, typed=True included (0.0 / -0.0 and one instant in two time zones are equal, hash alike and are distinguishable in the result).'
     run.rule_text = ("one obligation per write site, per Props-construction argument, per Props method, per singleton class; "
                      "non-trivial = the target's origin needed alias tracking through locals, loop variables or callee summaries")
     run.trusted += ["writes happen only through: attribute/subscript store, del, augmented assignment, the listed mutating "
@@ -365,7 +366,7 @@ def check(run: Run, prog: Program, model: Model, tier: str) -> None:
     from .c14 import _memo
     conv = model.visitors["Substitutor"].lookup("_from_native")
     _memo(run, prog, model, prog.func("d42.utils._from_native.from_native"), rule="MEMO-PURE",
-          roots=[conv] if conv is not None else None, prefixes=("d42.utils", "d42.substitution"))
+          roots=[conv] if conv is not None else None, prefixes=("d42.utils", "d42.substitution"), typed_ok=False)
     run.analysed["singletons"] = sorted(model.singletons)
 
     fixture_selftest(run)
@@ -465,4 +466,13 @@ MUTANTS = [
     {"name": "neutral: merged dict built with dict()/update on a fresh local", "expect": "SILENT",
      "edits": [("d42/declaration/types/_dict_schema.py", "        merged_keys = {**self_keys, **other_keys}\n",
                 "        merged_keys = dict(self_keys)\n        merged_keys.update(other_keys)\n")]},
+]
+
+# round 8: the seeded changes that were missed on first contact, replayed against the current tree
+MUTANTS += [
+    {"name": 'seeded C07-P', "rule": 'MEMO-PURE',
+     "edits": [('d42/utils/_from_native.py', 'from datetime import date, datetime\nfrom typing import Any\nfrom uuid import UUID\n\nfrom d42.declaration.types import (\n', 'from datetime import date, datetime\nfrom functools import lru_cache\nfrom typing import Any, Hashable\nfrom uuid import UUID\n\nfrom d42.declaration.types import (\n'),
+               ('d42/utils/_from_native.py', '__all__ = ("from_native",)\n\n\ndef from_native(value: Any) -> GenericSchema:\n    if value is None:\n        return NoneSchema()\n    elif isinstance(value, bool):\n', '__all__ = ("from_native",)\n\n\n@lru_cache(maxsize=1024, typed=True)\ndef _from_scalar(value: Hashable) -> GenericSchema:\n    # schemas are immutable values, so the conversion of a scalar can be shared between callers;\n    # typed=True keeps 1, True and 1.0 (equal, same hash) in separate cache slots\n    if value is None:\n        return NoneSchema()\n    elif isinstance(value, bool):\n'),
+               ('d42/utils/_from_native.py', '        return FloatSchema()(value)\n    elif isinstance(value, str):\n        return StrSchema()(value)\n    elif isinstance(value, list):\n        return ListSchema()([from_native(x) for x in value])\n    elif isinstance(value, dict):\n        if any(isinstance(key, (optional, type(...))) for key in value):\n            raise ValueError(value)\n        return DictSchema()({key: from_native(val) for key, val in value.items()})\n    elif isinstance(value, bytes):\n        return BytesSchema()(value)\n    elif isinstance(value, UUID) and (value.version == 4):\n', '        return FloatSchema()(value)\n    elif isinstance(value, str):\n        return StrSchema()(value)\n    elif isinstance(value, bytes):\n        return BytesSchema()(value)\n    elif isinstance(value, UUID) and (value.version == 4):\n'),
+               ('d42/utils/_from_native.py', '        return DateSchema()(value)\n    else:\n        raise ValueError(value)\n', '        return DateSchema()(value)\n    else:\n        raise ValueError(value)\n\n\ndef from_native(value: Any) -> GenericSchema:\n    if isinstance(value, list):\n        return ListSchema()([from_native(x) for x in value])\n    elif isinstance(value, dict):\n        if any(isinstance(key, (optional, type(...))) for key in value):\n            raise ValueError(value)\n        return DictSchema()({key: from_native(val) for key, val in value.items()})\n    try:\n        return _from_scalar(value)\n    except TypeError:  # unhashable, hence not one of the supported scalars\n        raise ValueError(value) from None\n')]},
 ]
